@@ -36,6 +36,31 @@ pub fn dispatch(p: &[String]) -> String {
             generated::from_str(&p[1], &String::from_utf8_lossy(&bytes))
         }
         "from_bits" => generated::from_bits(&p[1], p[2].parse::<u32>().unwrap()),
+        "reflect" => {
+            use rspirv::grammar::reflect as r;
+            let n = p[2].parse::<u32>().unwrap();
+            match spirv::Op::from_u32(n) {
+                None => "{\"error\": \"not an opcode\"}".to_string(),
+                Some(op) => {
+                    let v = match p[1].as_str() {
+                        "is_location_debug" => r::is_location_debug(op),
+                        "is_nonlocation_debug" => r::is_nonlocation_debug(op),
+                        "is_debug" => r::is_debug(op),
+                        "is_annotation" => r::is_annotation(op),
+                        "is_type" => r::is_type(op),
+                        "is_constant" => r::is_constant(op),
+                        "is_variable" => r::is_variable(op),
+                        "is_return" => r::is_return(op),
+                        "is_abort" => r::is_abort(op),
+                        "is_return_or_abort" => r::is_return_or_abort(op),
+                        "is_branch" => r::is_branch(op),
+                        "is_block_terminator" => r::is_block_terminator(op),
+                        _ => return "{\"error\": \"unknown predicate\"}".to_string(),
+                    };
+                    format!("{{\"value\": {}, \"op\": \"{:?}\"}}", v, op)
+                }
+            }
+        }
         _ => format!("{{\"error\": \"unknown request {}\"}}", p[0]),
     }
 }
